@@ -536,22 +536,6 @@ def container_depth(d):
     return 0
 
 
-def inline_under_map(d, under=False):
-    """an inline StructureReference occurs (at any depth) inside a collection.  An inline structure is deserialized
-    with the mapper handed down to it: the aggregated (identity) mapper reaches it as a direct field (and through
-    Array[inline]), where a null field counts as an ABSENT key; deserialize_map passes no mapper on and deeper
-    collections have no `_mapper` entry, and there a null field is deserialized as a VALUE.  The `deser` model of
-    Sem/Deser.lean (C05) treats null as absent everywhere, so inline structures inside collections are a
-    different region - kept out of this stream (class references compute their own mapper: uniform)"""
-    if d["k"] == "struct":
-        if d.get("inline") and under:
-            return True
-        return any(inline_under_map(f, under) for _, f in d["fields"])
-    subs = ([d["item"]] if isinstance(d.get("item"), dict) else []) + [x for x in d.get("items", []) if isinstance(x, dict)] + \
-           [d[k] for k in ("key", "val") if isinstance(d.get(k), dict)]
-    return any(inline_under_map(x, True) for x in subs)
-
-
 def corrupt_along(rng, vg, d, w, mode, hashable=False, depth=0):
     """walk the value `w` along its declaration `d` down to ONE position and make it invalid there:
     a boundary neighbour of the declaration at that position, a payload text, another type.  In
@@ -662,7 +646,7 @@ def gen_deep(rng, tier, n_classes):
                         fd = coll_of(rng.choice(["seqOf", "deque", "tupleOf", "mapVal"]), fd)
                 else:
                     fd = dg.decl(0)
-                if (want_struct or want_coll_of_struct or want_wrapper or container_depth(fd) >= 2) and not inline_under_map(fd):
+                if want_struct or want_coll_of_struct or want_wrapper or container_depth(fd) >= 2:
                     fields.append([nm, fd])
                     break
         if not fields:
@@ -1163,9 +1147,10 @@ def line(case, impl):
         if impl.get("cls_def") is not None:
             l["clsDef"] = impl["cls_def"]
         l["scratch"] = impl.get("scratch", [])
-        # keep_undefined as deserialize_structure_internal receives it (Deserializer.deserialize passes
-        # None on for a class that allows additional properties)
-        l["keepUndefined"] = bool(case.get("entry") == "deserialize_structure" or not case["cls"].get("addl", True))
+        # keep_undefined as deserialize_structure_internal receives it: True by default from deserialize_structure;
+        # Deserializer.deserialize passes None on for a class that allows additional properties and (since /repo
+        # 005d815) `not ignore_invalid_additional_properties_in_deserialization` = False for a closed class
+        l["keepUndefined"] = bool(case.get("entry") == "deserialize_structure")
     if impl.get("msg") is not None:
         l["msg"] = impl["msg"]
         # oracle answers for `\w`: the non-ASCII characters of the message that str.isalnum() accepts
